@@ -67,6 +67,53 @@ struct Scope {
     /// Values for parameters inside the Simfony program.
     arguments: Arguments,
     include_debug_symbols: bool,
+    /// Identity of this scope object in recorded traces.
+    #[cfg(feature = "verif")]
+    verif_id: u64,
+}
+
+#[cfg(feature = "verif")]
+impl Scope {
+    fn verif_new_id(kind: &str, input: &Pattern) -> u64 {
+        let id = crate::verif::next_scope_id();
+        crate::verif::emit(|| {
+            format!(
+                r#"{{"e":"{kind}","sid":{id},"pat":{}}}"#,
+                crate::verif::pattern_json(input)
+            )
+        });
+        id
+    }
+
+    fn verif_event(&self, event: &str, pattern: Option<&Pattern>) {
+        crate::verif::emit(|| match pattern {
+            Some(p) => format!(
+                r#"{{"e":"{event}","sid":{},"pat":{}}}"#,
+                self.verif_id,
+                crate::verif::pattern_json(p)
+            ),
+            None => format!(r#"{{"e":"{event}","sid":{}}}"#, self.verif_id),
+        });
+    }
+
+    fn verif_get(&self, target: &BasePattern) {
+        if let BasePattern::Identifier(identifier) = target {
+            let path = BasePattern::from(&self.get_input_pattern()).verif_get_path(identifier);
+            crate::verif::emit(|| match &path {
+                Some(path) => format!(
+                    r#"{{"e":"c.get","sid":{},"x":{},"found":true,"path":{}}}"#,
+                    self.verif_id,
+                    crate::verif::js(identifier.as_inner()),
+                    crate::verif::path_json(path)
+                ),
+                None => format!(
+                    r#"{{"e":"c.get","sid":{},"x":{},"found":false,"path":[]}}"#,
+                    self.verif_id,
+                    crate::verif::js(identifier.as_inner())
+                ),
+            });
+        }
+    }
 }
 
 impl Scope {
@@ -89,12 +136,16 @@ impl Scope {
             call_tracker,
             arguments,
             include_debug_symbols,
+            #[cfg(feature = "verif")]
+            verif_id: Self::verif_new_id("c.new", &Pattern::Ignore),
         }
     }
 
     /// Create a child scope for a function that takes `input` of the given pattern.
     pub fn child(&self, input: Pattern) -> Self {
         Self {
+            #[cfg(feature = "verif")]
+            verif_id: Self::verif_new_id("c.child", &input),
             variables: vec![vec![input]],
             ctx: self.ctx.shallow_clone(),
             call_tracker: Arc::clone(&self.call_tracker),
@@ -106,6 +157,8 @@ impl Scope {
     /// Push a new scope onto the stack.
     pub fn push_scope(&mut self) {
         self.variables.push(Vec::new());
+        #[cfg(feature = "verif")]
+        self.verif_event("c.push", None);
     }
 
     /// Pop the current scope from the stack.
@@ -115,6 +168,8 @@ impl Scope {
     /// The stack is empty.
     pub fn pop_scope(&mut self) {
         self.variables.pop().expect("Empty stack");
+        #[cfg(feature = "verif")]
+        self.verif_event("c.pop", None);
     }
 
     /// Push an assignment to the current scope.
@@ -131,6 +186,8 @@ impl Scope {
     ///
     /// The stack is empty.
     pub fn insert(&mut self, pattern: Pattern) {
+        #[cfg(feature = "verif")]
+        self.verif_event("c.insert", Some(&pattern));
         self.variables
             .last_mut()
             .expect("Empty stack")
@@ -179,6 +236,8 @@ impl Scope {
     ///
     /// The expression `drop (IOH & OH)` returns the seeked value.
     pub fn get(&self, target: &BasePattern) -> Option<PairBuilder<ProgNode>> {
+        #[cfg(feature = "verif")]
+        self.verif_get(target);
         BasePattern::from(&self.get_input_pattern()).translate(&self.ctx, target)
     }
 
@@ -487,11 +546,24 @@ fn list_fold(bound: NonZeroPow2Usize, f: &ProgNode) -> Result<ProgNode, simplici
     let mut f_fold = ProgNode::case(ioh.as_ref(), &f_array)?;
     let mut i = NonZeroPow2Usize::TWO;
 
+    #[cfg(feature = "verif")]
+    let mut verif_doublings = 0usize;
     while i < bound {
         f_array = next_f_array(&f_array)?;
         f_fold = next_f_fold(&f_array, &f_fold)?;
         i = i.mul2();
+        #[cfg(feature = "verif")]
+        {
+            verif_doublings += 1;
+        }
     }
+    #[cfg(feature = "verif")]
+    crate::verif::emit(|| {
+        format!(
+            r#"{{"e":"c.fold","bound":{},"doublings":{verif_doublings}}}"#,
+            bound.get()
+        )
+    });
 
     Ok(f_fold)
 }
@@ -592,6 +664,22 @@ fn for_while(
         tail[index] = Task::Adapt;
         i = i.mul2();
     }
+
+    #[cfg(feature = "verif")]
+    crate::verif::emit(|| {
+        let tasks: Vec<&str> = stack
+            .iter()
+            .map(|task| match task {
+                Task::ForWhile0 => "0",
+                Task::Adapt => "1",
+            })
+            .collect();
+        format!(
+            r#"{{"e":"c.for_while","width":{},"stack":[{}]}}"#,
+            bit_width.get(),
+            tasks.join(",")
+        )
+    });
 
     let mut for_while_f = f;
 
